@@ -43,10 +43,13 @@ func deploy(d, fl int) *Node {
 // planOf derives what the transaction needs (committee witness, deployment fee) from the tree.
 func planOf(t []*Node) txPlan {
 	p := txPlan{tree: t}
+	tag := 0
 	var walk func(l []*Node)
 	walk = func(l []*Node) {
 		for _, n := range l {
 			if n.Op == nNative {
+				tag++
+				n.Nat.Tag = tag
 				switch n.Nat.Kind {
 				case natSetFee, natBlock, natUnblock, natDesignate, natSetWl, natDelWl:
 					p.committee = true
@@ -64,6 +67,30 @@ func planOf(t []*Node) txPlan {
 	}
 	walk(t)
 	return p
+}
+
+func nat(kind, fl int, op NatOp) *Node {
+	op.Kind = kind
+	return &Node{Op: nNative, Fl: fl, Nat: &op}
+}
+func update() *Node                  { return nat(natUpdate, 15, NatOp{}) }
+func destroy() *Node                 { return nat(natDestroy, 15, NatOp{}) }
+func designate(role, v int) *Node    { return nat(natDesignate, 15, NatOp{To: role, Val: v}) }
+func setWl(c, fee int) *Node         { return nat(natSetWl, 15, NatOp{To: c, Val: fee}) }
+func delWl(c int) *Node              { return nat(natDelWl, 15, NatOp{To: c}) }
+func vote(on int) *Node              { return nat(natVote, 15, NatOp{Val: on}) }
+func deposit(amt int) *Node          { return nat(natTransfer, 15, NatOp{To: notaryAcc, Amt: amt}) }
+func neoXfer(to, amt int, cb []*Node) *Node {
+	return nat(natNeoTransfer, 15, NatOp{To: to, Amt: amt, HasCb: cb != nil, Cb: cb})
+}
+
+// rolledBackAndCommitted wraps ops into: a callee that does them and throws (caught), then a callee
+// that does them and returns, then a callee that does them again inside a transaction that ... halts.
+func bothWays(c int, ops func() []*Node) []*Node {
+	return L(call(0, 15,
+		try(L(call(c, 15, append(ops(), throw())...)), L(notify(1)), nil),
+		call(c, 15, ops()...),
+		try(L(call(c, 15, append(ops(), throw())...)), none, L(notify(2)))))
 }
 
 func one(t ...*Node) []txPlan { return []txPlan{planOf(t)} }
@@ -125,6 +152,34 @@ func corpus() [][]txPlan {
 		one(call(0, 15, try(L(call(1, 15, deploy(0, 15), deploy(1, 15), throw())), L(notify(1)), nil), deploy(1, 15), try(L(call(2, 15, deploy(2, 15))), none, nil))),
 		one(call(0, 15, deploy(0, 15), deploy(0, 15))),
 		one(call(0, 15, deploy(2, 15), abort())),
+		// --- stage 4 natives: each rolled back (callee throws, caller catches), committed, rolled back again ---
+		one(call(0, 15, try(L(call(1, 15, designate(8, 1), designate(4, 2), throw())), L(notify(1)), nil),
+			call(1, 15, designate(8, 2), designate(4, 1)), try(L(call(1, 15, designate(16, 1), throw())), none, L(notify(2))))),
+		one(call(0, 15, designate(8, 1), try(L(designate(8, 2)), none, nil))),
+		one(bothWays(1, func() []*Node { return L(setWl(1, 300), setWl(2, 10), setWl(1, 301)) })...),
+		one(call(0, 15, setWl(0, 5), setWl(3, 7), try(L(call(1, 15, delWl(0), setWl(2, 9), throw())), none, nil), delWl(3))),
+		one(bothWays(2, func() []*Node { return L(update(), put(1, 1)) })...),
+		one(call(0, 15, setWl(3, 50), try(L(call(3, 15, put(0, 1), destroy(), throw())), L(notify(1)), nil), call(3, 15, put(0, 2), update()))),
+		one(call(0, 15, setWl(3, 50), call(3, 15, put(0, 1), destroy()), try(L(call(3, 15, put(0, 2))), none, nil))),
+		one(call(3, 15, put(1, 1), destroy(), notify(5), try(L(put(1, 2)), none, nil))),
+		one(call(3, 15, destroy()), call(0, 15, xfer(3, 0, 15, L(put(0, 1))), put(0, 9))),
+		one(bothWays(1, func() []*Node { return L(deposit(minDeposit), deposit(7)) })...),
+		one(call(1, 15, try(L(call(2, 15, deposit(minDeposit+5), throw())), none, nil), deposit(minDeposit), call(2, 15, deposit(minDeposit)))),
+		one(call(1, 15, try(L(deposit(5)), none, nil))),
+		one(bothWays(0, func() []*Node { return L(neoXfer(1, 1, L(put(3, 3), notify(4))), neoXfer(6, 1, nil)) })...),
+		one(bothWays(1, func() []*Node { return L(vote(1), neoXfer(0, 1, nil), vote(0)) })...),
+		one(call(0, 15, vote(1), try(L(call(1, 15, vote(1), neoXfer(0, 2, L(vote(0), throw())))), L(notify(1)), nil), neoXfer(1, 1, nil))),
+		one(call(0, 15, neoXfer(0, 3, L(try(L(notify(6), neoXfer(1, 0, nil), put(2, 1)), none, L(put(1, 2)))))), call(1, 15, neoXfer(2, 1, nil))),
+		one(call(0, 15, neoXfer(6, 1, nil), try(L(call(1, 15, blockAcc(6, 15), throw())), none, nil), blockAcc(6, 15), unblockAcc(6, 15))),
+		one(call(0, 15, neoXfer(1, 100, nil), neoXfer(1, 0, L(abort())))),
+		// a NEO method with a pending GAS reward inside a finally block that runs for an exception: the
+		// reward's payment callback returns with the exception pending -> FAULT (one frame, not three)
+		one(call(2, 15, put(3, 1), try(L(try(L(throw()), nil, L(vote(1), notify(4))), put(1, 2)), L(notify(5)), nil))),
+		one(call(0, 15, try(L(try(L(throw()), nil, L(neoXfer(6, 1, nil), notify(4)))), L(notify(5)), nil))),
+		// the VM is reused: a predecessor that died with a pending exception / deep in pushed layers /
+		// by ABORT must not disturb a try-finally on the normal path, nor calls under TRY, in the next one
+		{planOf(L(call(0, 15, put(1, 1), call(1, 15, put(1, 1), throw())))), planOf(L(call(0, 15, try(L(call(1, 15, put(2, 2))), nil, L(put(3, 3))), notify(1))))},
+		{planOf(L(call(0, 15, try(L(call(1, 15, notify(3), call(2, 15, put(0, 1), abort()))), none, nil)))), planOf(L(call(0, 15, try(L(call(1, 15, put(2, 2), throw())), L(notify(2)), L(put(3, 3))))))},
 		// a faulting transaction between two good ones
 		{simpleTxFixed(0, 1, 1), planOf(L(call(0, 15, put(1, 9), deploy(0, 15), call(1, 15, put(1, 9)), abort()))), simpleTxFixed(1, 2, 2)},
 	}
